@@ -375,3 +375,85 @@ def no_state_between_plots(ctx, rule='C20-R6'):
         else:
             ctx.ok(rule, f'{q}: modifies no memoised result and no module-level object of the plotting modules', f.loc())
     ctx.tables['memoised_functions'] = sorted(cached)
+
+
+# ---------------------------------------------------------------------------------------------- C20-R8
+def string_arrays_wide_enough(ctx, rule='C20-R8'):
+    """A NumPy array built from string literals has a fixed width (that of the longest literal): a longer string stored
+    into it later is silently cut ('none' into an array of 'k' becomes 'n', which matplotlib refuses).  Every string
+    literal stored into such an array must fit.  Arrays whose elements are not all literals (colours read from a style)
+    are not decided."""
+    fx = effects(ctx)
+    p = ctx.project
+    from sa.anchors import is_helper
+    n = 0
+    undecided = 0
+    for q0, f0 in sorted(p.funcs.items()):
+        if not f0.module.name.startswith('ampycloud.plots') or is_helper(p, q0) or q0 not in fx.summ:
+            continue
+        for e in fx.deep_events(q0):
+            if e.kind != 'store' or not (T.is_const(e.value) and isinstance(e.value[1], str)):
+                continue
+            tgt = e.target
+            if tag(tgt) not in ('mask', 'sub') or e.base is None:
+                continue
+            def leaves(t):
+                t = T.peel(t)
+                if tag(t) == 'phi':
+                    return [x for _, v in t[1] for x in leaves(v)]
+                if tag(t) == 'call' and t[1] in (('g', 'numpy.array'), ('g', 'numpy.asarray'), ('g', 'copy.deepcopy'),
+                                                 ('g', 'copy.copy')) and t[2]:
+                    return leaves(t[2][0])
+                if tag(t) == 'mcall' and t[2] == 'copy':
+                    return leaves(t[1])
+                return [t]
+            alts = leaves(tgt[1])
+            res = [_string_array_widths(a) for a in alts]
+            undecided += sum(1 for r in res if r[0] is not None and not r[1])
+            decided = [max(r[0]) for r in res if r[0] is not None and r[1]]
+            if not decided:
+                continue
+            n += 1
+            w = min(decided)            # the narrowest of the ways the array can have been built
+            ctx.check(len(e.value[1]) <= w, rule, e.func.qname, e.node, e.loc(),
+                      f"{e.value[1]!r} ({len(e.value[1])} characters) is stored into an array of strings built from literals "
+                      f'of at most {w} character(s): NumPy cuts it to {e.value[1][:w]!r}',
+                      instance=f'{e.func.qname.split(".")[-1]}: {e.value[1]!r} fits the string array it is stored into')
+    ctx.floor(rule, 'string literals stored into arrays of string literals (plots)', n, 1)
+    ctx.tables[f'{rule} stores into string arrays with non-literal elements (not decided)'] = undecided
+
+
+def _string_array_widths(t):
+    """(widths of the string literals the array is made of, are all its elements literals) for a term that is an
+    array of strings built from a list (np.array([...] * n), through copies and phi), else (None, None)."""
+    t = T.peel(t)
+    tg = tag(t)
+    if tg == 'phi':
+        res = [_string_array_widths(v) for _, v in t[1]]
+        if any(r[0] is None for r in res):
+            return None, None
+        return [w for r in res for w in r[0]], all(r[1] for r in res)
+    if tg == 'call' and t[1] in (('g', 'numpy.array'), ('g', 'numpy.asarray'), ('g', 'copy.deepcopy'), ('g', 'copy.copy'),
+                                 ('g', 'builtins.list')) and t[2]:
+        return _string_array_widths(t[2][0])
+    if tg == 'mcall' and t[2] in ('copy', 'astype'):
+        return _string_array_widths(t[1])
+    if tg == 'call' and t[1] in (('g', 'numpy.full'), ('g', 'numpy.full_like')) and len(t[2]) >= 2 and \
+            T.is_const(t[2][1]) and isinstance(t[2][1][1], str):
+        return [len(t[2][1][1])], True
+    if tg == 'bin' and t[1] == '*':
+        lst = t[2] if tag(t[2]) == 'list' else (t[3] if tag(t[3]) == 'list' else None)
+        if lst is not None and lst[1]:
+            t, tg = lst, 'list'
+    if tg in ('list', 'tuple') and t[1]:
+        lits = [x for x in t[1] if T.is_const(x) and isinstance(x[1], str)]
+        if not lits and not any(T.contains(x, lambda y: tag(y) == 'col' and y[2] == 'color') for x in t[1]):
+            return None, None
+        return [len(x[1]) for x in lits] or [0], len(lits) == len(t[1])
+    if tg == 'lc':
+        el = t[2]
+        if T.is_const(el) and isinstance(el[1], str):
+            return [len(el[1])], True
+        if T.contains(el, lambda y: tag(y) == 'col' and y[2] == 'color'):
+            return [0], False
+    return None, None
